@@ -26,6 +26,8 @@ type chunkReader struct {
 	pos   int
 	sizes []int
 	i     int
+	// eofWithData: the final piece is returned together with io.EOF (legal for an io.Reader)
+	eofWithData bool
 }
 
 func (r *chunkReader) Read(p []byte) (int, error) {
@@ -42,6 +44,9 @@ func (r *chunkReader) Read(p []byte) (int, error) {
 	}
 	copy(p, r.data[r.pos:r.pos+n])
 	r.pos += n
+	if r.eofWithData && r.pos == len(r.data) {
+		return n, io.EOF
+	}
 	return n, nil
 }
 
